@@ -38,6 +38,7 @@ struct V4 {
         return b;
     }
     static A parse(const std::string& s) { return A(s); }
+    static A parse_c(const std::string& s) { return A(s.c_str()); }          // the const char* constructor
     static AddressRange<A> slash(const A& a, int p) { return a / p; }
 };
 struct V6 {
@@ -48,6 +49,7 @@ struct V6 {
     static A make(const Bytes& b) { return A(b.data()); }
     static Bytes bytes(const A& a) { return Bytes(a.begin(), a.end()); }
     static A parse(const std::string& s) { return A(s); }
+    static A parse_c(const std::string& s) { return A(s.c_str()); }
     static AddressRange<A> slash(const A& a, int p) { return a / p; }
 };
 struct HW {
@@ -58,6 +60,7 @@ struct HW {
     static A make(const Bytes& b) { return A(b.data()); }
     static Bytes bytes(const A& a) { return Bytes(a.begin(), a.end()); }
     static A parse(const std::string& s) { return A(s); }
+    static A parse_c(const std::string& s) { char buf[160] = {0}; memcpy(buf, s.data(), std::min<size_t>(s.size(), 159)); return A(buf); }   // the char-array constructor, array larger than the text
     static AddressRange<A> slash(const A& a, int p) { return a / p; }
 };
 struct HW8 {  // SLL::address_type
@@ -68,6 +71,7 @@ struct HW8 {  // SLL::address_type
     static A make(const Bytes& b) { return A(b.data()); }
     static Bytes bytes(const A& a) { return Bytes(a.begin(), a.end()); }
     static A parse(const std::string& s) { return A(s); }
+    static A parse_c(const std::string& s) { char buf[160] = {0}; memcpy(buf, s.data(), std::min<size_t>(s.size(), 159)); return A(buf); }   // the char-array constructor, array larger than the text
     static AddressRange<A> slash(const A& a, int p) { return a / p; }
 };
 struct HW16 {  // BootP::chaddr_type
@@ -78,6 +82,7 @@ struct HW16 {  // BootP::chaddr_type
     static A make(const Bytes& b) { return A(b.data()); }
     static Bytes bytes(const A& a) { return Bytes(a.begin(), a.end()); }
     static A parse(const std::string& s) { return A(s); }
+    static A parse_c(const std::string& s) { char buf[160] = {0}; memcpy(buf, s.data(), std::min<size_t>(s.size(), 159)); return A(buf); }   // the char-array constructor, array larger than the text
     static AddressRange<A> slash(const A& a, int p) { return a / p; }
 };
 
@@ -664,6 +669,15 @@ static void string_accept(Src& s, Ctx& ctx) {
         got = F::bytes(a);
     } catch (const invalid_address&) {
         accepted = false;
+    }
+    // the other textual constructor (const char* / char array) must decide and decode exactly like the std::string one
+    if (t.size() < 159) {
+        bool accepted_c = false;
+        Bytes got_c;
+        try { A a = F::parse_c(t); accepted_c = true; got_c = F::bytes(a); } catch (const invalid_address&) {}
+        VCHECK(ctx, accepted_c == accepted && got_c == got, tag + ":c-string-constructor-differs",
+               "'" << t << "': std::string constructor " << (accepted ? "accepts as " + hex(got) : std::string("rejects")) << ", C-string constructor "
+                   << (accepted_c ? "accepts as " + hex(got_c) : std::string("rejects")));
     }
     if (v == ACCEPT) {
         VCHECK(ctx, accepted, tag + ":string-valid-rejected", "valid text '" << t << "' rejected");
